@@ -520,6 +520,16 @@ func (r *rwRT) switchBreaksRewritten(in *Interp, o Outcome, shp *astInput) error
 		}
 	}
 	if cb == nil {
+		// ... or by a hand-written recursive walk of the package's own: judged on concrete trees
+		for _, e := range o.St.Events[:firstLower] {
+			if e.Kind == "call" && e.Fn != nil && inRw(e.Fn) && isRecursiveAstWalk(e.Fn) {
+				for _, a := range e.Args {
+					if sameAV(unwrap(a), unwrap(body)) {
+						return r.switchBreakWalk(bodyOf(e.Fn))
+					}
+				}
+			}
+		}
 		return fmt.Errorf("the body of the switch is not traversed before its clause bodies are lowered")
 	}
 	type tc struct {
@@ -585,6 +595,111 @@ func (r *rwRT) switchBreaksRewritten(in *Interp, o Outcome, shp *astInput) error
 					return fmt.Errorf("the traversal does not descend into ast.%s: a break of the switch nested in it is missed", t.kind)
 				}
 				return fmt.Errorf("the traversal descends into ast.%s: the break of a nested loop / switch / closure would be turned into a completion of the outer switch", t.kind)
+			}
+		}
+	}
+	return nil
+}
+
+// switchBreakWalk: a hand-written walk that turns the breaks of a switch into `return Normal()` is run on concrete
+// clause bodies: `break` at the top of a clause, inside a block, inside both arms of an if / else-if chain and
+// under a label is replaced; `break` inside a nested for / range / switch / type switch / select is not (it is
+// theirs), nor is `continue` or a labelled break.
+func (r *rwRT) switchBreakWalk(fn *ssaFunction) error {
+	type tc struct {
+		desc    string
+		build   func(st *State, br AV) AV // the statement around the branch statement
+		replace bool
+		tok     string
+		label   AV
+	}
+	// statement lists are backing arrays here: the walk writes the replacements into the very slots
+	arr := func(st *State, list ...AV) AV {
+		return st.alloc(&Obj{Kind: 'a', Elems: append([]AV(nil), list...), Site: "makeslice"})
+	}
+	blk := func(st *State, list ...AV) AV {
+		_, b := r.heapNode(st, "BlockStmt", map[string]AV{"List": arr(st, list...)})
+		return b
+	}
+	cond := exprLeaf(r, "cond")
+	cases := []tc{
+		{"break at the top of a clause", func(st *State, br AV) AV { return br }, true, "BREAK", Nil{}},
+		{"break in a block", func(st *State, br AV) AV { return blk(st, br) }, true, "BREAK", Nil{}},
+		{"break in an if body", func(st *State, br AV) AV {
+			_, n := r.heapNode(st, "IfStmt", map[string]AV{"Cond": cond, "Body": unwrap(blk(st, br)), "Else": Nil{}})
+			return n
+		}, true, "BREAK", Nil{}},
+		{"break in an else block", func(st *State, br AV) AV {
+			_, n := r.heapNode(st, "IfStmt", map[string]AV{"Cond": cond, "Body": unwrap(blk(st)), "Else": blk(st, br)})
+			return n
+		}, true, "BREAK", Nil{}},
+		{"break in an else-if body", func(st *State, br AV) AV {
+			_, inner := r.heapNode(st, "IfStmt", map[string]AV{"Cond": cond, "Body": unwrap(blk(st, br)), "Else": Nil{}})
+			_, n := r.heapNode(st, "IfStmt", map[string]AV{"Cond": cond, "Body": unwrap(blk(st)), "Else": inner})
+			return n
+		}, true, "BREAK", Nil{}},
+		{"break in a labelled block", func(st *State, br AV) AV {
+			_, n := r.heapNode(st, "LabeledStmt", map[string]AV{"Label": Sym{Name: "L", NN: true}, "Stmt": blk(st, br)})
+			return n
+		}, true, "BREAK", Nil{}},
+		{"continue", func(st *State, br AV) AV { return br }, false, "CONTINUE", Nil{}},
+		{"labelled break", func(st *State, br AV) AV { return br }, false, "BREAK", Sym{Name: "L", NN: true}},
+	}
+	for _, k := range []string{"ForStmt", "RangeStmt"} {
+		k := k
+		cases = append(cases, tc{"break in a nested " + k, func(st *State, br AV) AV {
+			_, n := r.heapNode(st, k, map[string]AV{"Body": unwrap(blk(st, br))})
+			return n
+		}, false, "BREAK", Nil{}})
+	}
+	for _, k := range []string{"SwitchStmt", "TypeSwitchStmt", "SelectStmt"} {
+		k := k
+		cases = append(cases, tc{"break in a nested " + k, func(st *State, br AV) AV {
+			clause := "CaseClause"
+			if k == "SelectStmt" {
+				clause = "CommClause"
+			}
+			_, cl := r.heapNode(st, clause, map[string]AV{"Body": arr(st, br)})
+			_, n := r.heapNode(st, k, map[string]AV{"Body": unwrap(blk(st, cl))})
+			return n
+		}, false, "BREAK", Nil{}})
+	}
+	for _, t := range cases {
+		st := newState()
+		brRef, br := r.heapNode(st, "BranchStmt", map[string]AV{"Tok": r.tokConst(t.tok), "Label": t.label})
+		stmt := t.build(st, br)
+		_, clause := r.heapNode(st, "CaseClause", map[string]AV{"Body": arr(st, stmt)})
+		bodyRef, body := r.heapNode(st, "BlockStmt", map[string]AV{"List": arr(st, clause)})
+		in := r.interp(rwConfig{root: fn, inlineAll: true})
+		in.MaxRecur, in.MaxDepth, in.MaxVisits = 12, 30, 8
+		args := []AV{body}
+		if fn.Signature.Recv() != nil {
+			args = []AV{Sym{Name: "r", NN: true}, body}
+		}
+		outs := in.Run(st, fn, args, nil)
+		r.account(in)
+		if len(outs) == 0 {
+			return fmt.Errorf("the walk has no path for: %s", t.desc)
+		}
+		for _, o := range outs {
+			if o.Panicked || o.St.Truncated {
+				return fmt.Errorf("the walk panics or is cut short on: %s", t.desc)
+			}
+			for _, e := range o.St.Events {
+				if e.Kind == "call" && e.Fn != nil && inRw(e.Fn) && (e.Fn.Name() == "mustNoYield" || e.Fn.Name() == "containsYield") {
+					goto asked
+				}
+			}
+			r.switchBreakDepthBlind = true
+		asked:
+			// is the branch statement still in the tree?
+			still := strings.Contains(o.St.Render(bodyRef), o.St.Render(brRef))
+			normal := strings.Contains(o.St.Render(bodyRef), "ast.ReturnStmt")
+			if t.replace && (still || !normal) {
+				return fmt.Errorf("%s is not replaced by `return seq.Normal()`: %s", t.desc, o.St.Render(bodyRef))
+			}
+			if !t.replace && (!still || normal) {
+				return fmt.Errorf("%s is replaced although it does not refer to the switch: %s", t.desc, o.St.Render(bodyRef))
 			}
 		}
 	}
